@@ -54,7 +54,7 @@ func (e *engine) addCompiledModule(module *wasm.Module, cm *compiledModule) (err
 }
 
 func (e *engine) getCompiledModule(module *wasm.Module, listeners []experimental.FunctionListener, ensureTermination bool) (cm *compiledModule, ok bool, err error) {
-	cm, ok = e.getCompiledModuleFromMemory(module)
+	cm, ok = e.retainCompiledModuleFromMemory(module)
 	if ok {
 		return
 	}
@@ -96,11 +96,25 @@ func (e *engine) addCompiledModuleToMemory(m *wasm.Module, cm *compiledModule) e
 	if e.compiledModules == nil {
 		return errors.New("engine closed")
 	}
+	cm.refCount = 1
+	if prev, ok := e.compiledModules[m.ID]; ok {
+		cm.refCount += prev.refCount // compiled concurrently by another caller.
+	}
 	e.compiledModules[m.ID] = cm
 	if len(cm.executable) > 0 {
 		e.addCompiledModuleToSortedList(cm)
 	}
 	return nil
+}
+
+// retainCompiledModuleFromMemory is getCompiledModuleFromMemory that also counts the caller as a user of the entry.
+func (e *engine) retainCompiledModuleFromMemory(module *wasm.Module) (cm *compiledModule, ok bool) {
+	e.mux.Lock()
+	defer e.mux.Unlock()
+	if cm, ok = e.compiledModules[module.ID]; ok {
+		cm.refCount++
+	}
+	return
 }
 
 func (e *engine) getCompiledModuleFromMemory(module *wasm.Module) (cm *compiledModule, ok bool) {
